@@ -33,6 +33,22 @@ def main_loop(cx: Cx, ob: Ob, fname: str):
         # the fix may iterate over copies: [r.model_copy(deep=True) for r in converter.records]
         loops = [ev for ev, ctx in s.walk() if ev.kind == "loop" and not ctx.loops and any(x == ("attr", conv, "records") for x in subterms(ev.b))]
     if not loops:
+        # the inverted algorithm: one pass over the PAIRS of the mapping, each applied to the record it addresses
+        mp = ("param", fn.params[1].name)
+        pair_loops = [ev for ev, ctx in s.walk() if ev.kind == "loop" and not ctx.loops and op(ev.b) == "call" and callee_name(ev.b) == "items" and op(ev.b[1]) == "attr" and ev.b[1][1] == mp]
+        for lp in pair_loops:
+            stores = [e for q in lp.body or () for e in q.events if e.kind == "store" and op(e.a) == "attr" and e.a[2] in ("uri_prefix", "uri_prefix_synonyms", "prefix", "prefix_synonyms")]
+            done_guard = any(g.kind == "guard" and op(g.a) == "cmp" and g.a[1] == "in" and op(g.a[3]) == "new" for q in lp.body or () for g in q.events)
+            if stores and not done_guard:
+                ob.violate(
+                    fn.qualname,
+                    where(fn, lp.line),
+                    f"{fname} applies the mapping pair by pair: a record that is addressed by two keys (its canonical value and a synonym, or two synonyms) is upgraded twice - it gains both new values, the last pair wins, and a pair after a clashing one is still applied - instead of taking the first applicable entry only",
+                    witness="record a with URI prefixes P (canonical) and Q (synonym), mapping {P: P2, Q: Q2}: the result has both P2 and Q2",
+                    detail="per-pair-application",
+                )
+                return None
+    if not loops:
         ob.undecide(f"{fname} has no loop over converter.records")
         return None
     return fn, s, conv, loops[0]
